@@ -548,6 +548,62 @@ func runC13(r *Run, verifDir string) {
 				if isSupportedVersions(x.X) {
 					okE = true
 				}
+				// or the element at a remembered index: `best` is a phi of a negative sentinel and of loop indexes, each
+				// remembered under the membership guard of the element at that index
+				if !okE {
+					var idxOK func(v ssa.Value, d int) bool
+					idxOK = func(v ssa.Value, d int) bool {
+						ph, ok := v.(*ssa.Phi)
+						if !ok || d > 3 {
+							return false
+						}
+						some := false
+						for i, e := range ph.Edges {
+							if k, isK := constIntVal(e); isK {
+								if k >= 0 {
+									return false
+								}
+								continue
+							}
+							if e == ssa.Value(ph) {
+								continue
+							}
+							if e2, isPhi := e.(*ssa.Phi); isPhi && e2 != ph {
+								// the loop-carried copy of the same variable
+								if !idxOK(e2, d+1) {
+									// it may be the loop header phi that merges the sentinel and this phi
+									cyc := false
+									for _, ee := range e2.Edges {
+										if ee == ssa.Value(ph) {
+											cyc = true
+										}
+									}
+									if !cyc {
+										return false
+									}
+								}
+								continue
+							}
+							// a loop index remembered on this edge: the guard must hold in the predecessor block
+							pred := ph.Block().Preds[i]
+							if !containsGuard(pred, func(g ssa.Value) bool {
+								u, ok := g.(*ssa.UnOp)
+								if !ok {
+									return false
+								}
+								ia2, ok := u.X.(*ssa.IndexAddr)
+								return ok && sameSlice(ia2.X, x.X) && ia2.Index == e
+							}) {
+								return false
+							}
+							some = true
+						}
+						return some
+					}
+					if idxOK(x.Index, 0) {
+						okE = true
+					}
+				}
 				// the candidate may be used in a later block of the loop body: accept a guard dominating the phi edge
 				if !okE {
 					for _, ref := range *x.Referrers() {
@@ -631,10 +687,32 @@ func runC13(r *Run, verifDir string) {
 			if !ok || ld.Op != token.MUL {
 				return ""
 			}
-			switch ld.X.(type) {
+			switch x := ld.X.(type) {
 			case *ssa.Phi:
 				return "best"
-			case *ssa.IndexAddr, *ssa.Alloc:
+			case *ssa.IndexAddr:
+				// element at a remembered index (a phi with a negative sentinel edge, directly or through the loop header)
+				var sentinel func(v ssa.Value, d int) bool
+				sentinel = func(v ssa.Value, d int) bool {
+					ph, ok := v.(*ssa.Phi)
+					if !ok || d > 2 {
+						return false
+					}
+					for _, e := range ph.Edges {
+						if k, isK := constIntVal(e); isK && k < 0 {
+							return true
+						}
+						if e != ssa.Value(ph) && sentinel(e, d+1) {
+							return true
+						}
+					}
+					return false
+				}
+				if sentinel(x.Index, 0) {
+					return "best"
+				}
+				return "cand"
+			case *ssa.Alloc:
 				return "cand"
 			}
 			return ""
@@ -708,8 +786,18 @@ func runC13(r *Run, verifDir string) {
 		if _, isG := st.Val.(*ssa.Global); isG {
 			continue
 		}
-		if _, isElem := st.Val.(*ssa.IndexAddr); isElem {
-			r.OK("C13.N6", fmt.Sprintf("kmipclient.Client.negotiateVersion/none-common#%d", i+1), st.Pos(), "the stored value is the address of a list element found in the loop: never nil; the loop falling through returns an error")
+		if ia, isElem := st.Val.(*ssa.IndexAddr); isElem {
+			k6 := fmt.Sprintf("kmipclient.Client.negotiateVersion/none-common#%d", i+1)
+			if ph, isPhi := ia.Index.(*ssa.Phi); isPhi {
+				// a remembered index with a negative "none found" sentinel: the store needs index >= 0
+				if lo, _ := boundedBy(ph, st); lo != nil && *lo >= 0 {
+					r.OK("C13.N6", k6, st.Pos(), "the remembered index is tested non-negative before the element is adopted; the other edge returns an error")
+				} else {
+					r.Bad("C13.N6", k6, st.Pos(), "the element at the remembered index is adopted without testing that a common version was found (index still at its negative sentinel): no common version makes the client index out of range instead of returning an error")
+				}
+				continue
+			}
+			r.OK("C13.N6", k6, st.Pos(), "the stored value is the address of a list element found in the loop: never nil; the loop falling through returns an error")
 			continue
 		}
 		key := fmt.Sprintf("kmipclient.Client.negotiateVersion/none-common#%d", i+1)
